@@ -174,6 +174,11 @@ async fn run_action(a: ActionSpec) {
         Action::SetShadow { host, user, password } => {
             crate::mockpg::set_shadow(host, user, password);
         }
+        Action::SetHostUser { host, user, password } => {
+            if let Some(h) = world::HOSTS.lock().get_mut(host) {
+                h.spec.users.insert(user.clone(), password.clone());
+            }
+        }
     }
     world::emit(&format!("action.{}.done", seq));
 }
